@@ -435,6 +435,69 @@ pub fn gen_json_for(r: &mut Rng, s: &O, miss: bool) -> Value {
     }
 }
 
+/// one structural near-miss somewhere in the tree: array arity, object keys (renamed / missing / extra),
+/// enum forms (object form of a unit variant, string form of a data variant, unknown variant)
+pub fn perturb(r: &mut Rng, j: &mut Value) {
+    // descend with probability 1/2 while there is somewhere to go
+    match j {
+        Value::Array(xs) if !xs.is_empty() && r.chance(1, 2) => {
+            let k = r.below(xs.len() as u64) as usize;
+            return perturb(r, &mut xs[k]);
+        }
+        Value::Object(m) if !m.is_empty() && r.chance(1, 2) => {
+            let k = r.below(m.len() as u64) as usize;
+            let key = m.keys().nth(k).cloned().unwrap();
+            return perturb(r, m.get_mut(&key).unwrap());
+        }
+        _ => {}
+    }
+    match j {
+        Value::Array(xs) => {
+            if r.chance(1, 2) || xs.is_empty() {
+                xs.push(Value::Null);
+            } else {
+                xs.pop();
+            }
+        }
+        Value::Object(m) => match r.below(4) {
+            0 if !m.is_empty() => {
+                // same number of keys, one of them renamed
+                let k = r.below(m.len() as u64) as usize;
+                let key = m.keys().nth(k).cloned().unwrap();
+                let v = m.remove(&key).unwrap();
+                m.insert(format!("{}x", key), v);
+            }
+            1 if !m.is_empty() => {
+                let k = r.below(m.len() as u64) as usize;
+                let key = m.keys().nth(k).cloned().unwrap();
+                m.remove(&key);
+            }
+            2 => {
+                m.insert("extra".into(), Value::Null);
+            }
+            _ => {
+                // an enum object collapsed to the string form of its variant
+                if let Some(k) = m.keys().next().cloned() {
+                    *j = Value::String(k);
+                }
+            }
+        },
+        Value::String(sv) => {
+            if r.chance(1, 2) {
+                // a unit variant written in object form / a string wrapped in an object
+                let mut m = Map::new();
+                m.insert(sv.clone(), if r.chance(1, 2) { Value::Null } else { Value::Array(vec![]) });
+                *j = Value::Object(m);
+            } else {
+                sv.push('?');
+            }
+        }
+        Value::Null => *j = Value::Array(vec![]),
+        Value::Bool(_) => *j = Value::Number(Number::from(1)),
+        Value::Number(_) => *j = Value::String("7".into()),
+    }
+}
+
 pub fn gen_c17(r: &mut Rng, thorough: bool, out: &mut Vec<String>) {
     crate::ops_c14::for_each_corpus_type(r, if thorough { 40 } else { 5 }, out, true);
 }
@@ -452,7 +515,13 @@ pub fn gen_c18(r: &mut Rng, thorough: bool, out: &mut Vec<String>) {
         // JSON side: type-correct, near-miss and unrelated values
         let j = match i % 4 {
             0 | 1 => gen_json_for(r, &s, false),
-            2 => gen_json_for(r, &s, true),
+            2 => {
+                let mut j = gen_json_for(r, &s, i % 8 == 2);
+                if i % 16 != 2 {
+                    perturb(r, &mut j);
+                }
+                j
+            }
             _ => gen_json(r, 2),
         };
         out.push(format!("dynser {} {}", show(&s), show_json(&j)));
